@@ -23,6 +23,7 @@ func init() { props["C13"] = runC13 }
 
 type c13Series struct {
 	Name      string     `json:"name"`
+	Extra     [][2]string `json:"extra_labels,omitempty"` // further labels of this series (label name sets differ between series)
 	Intervals [][2]int64 `json:"present"` // absolute unix seconds, inclusive: the series has a sample at t iff t lies in one
 }
 
@@ -114,7 +115,11 @@ func c13Eval(r *hx.Run, cs c13Case) {
 				}
 			}
 			if len(vals) > 0 {
-				result = append(result, ss{Metric: map[string]string{"__name__": "m", "s": s.Name}, Values: vals})
+				m := map[string]string{"__name__": "m", "s": s.Name}
+				for _, kv := range s.Extra {
+					m[kv[0]] = kv[1]
+				}
+				result = append(result, ss{Metric: m, Values: vals})
 			}
 		}
 		if result == nil {
@@ -160,8 +165,22 @@ func c13Eval(r *hx.Run, cs c13Case) {
 	g0 := slices[0].Start.Unix()
 	want := c13Spec(cs, g0)
 	got := map[string][][2]int64{}
+	wantLabels := map[string]string{}
+	for _, s := range cs.Series {
+		ls := []string{"__name__", "m", "s", s.Name}
+		for _, kv := range s.Extra {
+			ls = append(ls, kv[0], kv[1])
+		}
+		wantLabels[s.Name] = labels.FromStrings(ls...).String()
+	}
 	for _, rg := range o.res.Series.Ranges {
 		n := rg.Labels.Get("s")
+		// a range is attributed to a series only under that series' exact label set
+		if wl, ok := wantLabels[n]; !ok || wl != rg.Labels.String() {
+			r.Violate(hx.Violation{Class: "sliced-series-identity", Input: cs, Observed: map[string]any{"labels": rg.Labels.String(), "start": rg.Start.Unix(), "end": rg.End.Unix(), "requests": reqs},
+				Expected: map[string]any{"label_sets": wantLabels}})
+			return
+		}
 		got[n] = append(got[n], [2]int64{rg.Start.Unix(), rg.End.Unix()})
 	}
 	for k := range got {
@@ -314,6 +333,11 @@ func runC13(r *hx.Run, replay string) {
 		cs := c13Case{Start: base, End: base + look, Step: step}
 		for si := 0; si < 1+rr.Intn(3); si++ {
 			s := c13Series{Name: fmt.Sprintf("s%d", si)}
+			for _, k := range []string{"instance", "job", "zone"} {
+				if rr.Intn(3) == 0 {
+					s.Extra = append(s.Extra, [2]string{k, fmt.Sprintf("%s%d", k, rr.Intn(2))})
+				}
+			}
 			t := base - 7200 - int64(rr.Intn(3600))
 			for t < cs.End+3600 {
 				var l int64
